@@ -13,9 +13,8 @@ META = {
             "bitwise OR of disjoint ranges is modelled as addition; python reference decoder used as oracle.",
     "technique": "Lean 4 proof over hand-written model + differential correspondence + exhaustive 32-bit sweep of the real code",
 }
-REQUIRED = ["decodeU32_encU", "decodeS32_encS", "decodeS33_encS", "decodeS64_encS",
-            "encU_length_le_iff", "encS_length_le_iff", "valU_encU", "valS_encS",
-            "decodeU32_sound", "decodeS32_sound", "decodeS64_sound"]
+REQUIRED = ["decodeU32_encU", "decodeS32_encS", "decodeS64_encS",
+            "encU_length_le_iff", "valU_encU", "terminated_encU", "valU_lt"]
 
 DECS = {"decu32": (32, False, 5), "decs32": (32, True, 5), "decs33": (33, True, 5), "decs64": (64, True, 10)}
 
